@@ -13,9 +13,9 @@ Definition eclass_id (e : eclass) : N :=
   | ENotEnough => 1 | EBadBool => 2 | ELenMax => 3 | ELenMin => 4 | ELenInvalid => 5 | EArrMin => 6 | EArrMax => 7
   | EDup => 8 | EOrder => 9 | ENotAllConsumed => 10 | ETypeMismatch => 11 | EItem => 12 | ELenRange => 26
   | ESliceLong => 14 | ESliceShort => 15 | EStrLong => 16 | EStrShort => 17 | EU256Nil => 18 | EU256Neg => 19
-  | EU256Big => 20 | EEOF => 21 | EUnexpEOF => 22 | EFault => 23 | ENegLen => 26 | EConsumed => 26 | EOther => 26
+  | EU256Big => 20 | EEOF => 21 | EUnexpEOF => 22 | EFault => 23 | ENegLen => 26 | ESizeRange => 26 | EConsumed => 26 | EOther => 26
   end%N.
-(* ELenRange, ENegLen, EConsumed are plain ierrors.Errorf errors without a sentinel: the harness sees them as EOther *)
+(* ELenRange, ENegLen, ESizeRange, EConsumed are plain ierrors.Errorf errors without a sentinel: the harness sees them as EOther *)
 Definition eclass_eqb (a b : eclass) : bool := (eclass_id a =? eclass_id b)%N.
 
 Definition opt_eqb {A} (f : A -> A -> bool) (a b : option A) : bool :=
